@@ -28,6 +28,10 @@ var c16Payloads = []string{"x", "hello", "a b", "é", "日本", "", "\n", "\r", 
 	"data: y", "id: 7", "event: e", ": c", "\x00", "\xff\xfe", "retry: 1", " lead", "trail "}
 
 func genSrvPayload(rng *rand.Rand) string {
+	if rng.Intn(25) == 0 {
+		// long values, around the sizes at which writers usually start or stop buffering
+		return strings.Repeat("x", pick(rng, 511, 512, 1024, 4095, 4096, 4097, 5000, 8192, 20000))
+	}
 	if rng.Intn(4) == 0 {
 		n := 1 + rng.Intn(4)
 		var sb strings.Builder
